@@ -21,3 +21,371 @@ Qed.
 
 Lemma render_re_ok_no_ph v q : render_re v = Ok q -> placeholders v = [].
 Proof. unfold render_re. destruct (placeholders v); [reflexivity | discriminate]. Qed.
+
+(* ---------------------------------------------------------------------------------------- *)
+(* merging of adjacent string parts *)
+Fixpoint nf (v : sstring) : bool :=
+  match v with
+  | [] => true
+  | p :: v' => match p, v' with
+               | PStr _, PStr _ :: _ => false
+               | _, _ => nf v'
+               end
+  end.
+
+Lemma nf_merge v : nf (merge v) = true.
+Proof.
+  induction v as [|p v IH]; [reflexivity|].
+  destruct p; cbn [merge]; try exact IH.
+  destruct (merge v) as [|q r] eqn:E; [reflexivity|].
+  destruct q; exact IH.
+Qed.
+
+Lemma merge_nf v : nf v = true -> merge v = v.
+Proof.
+  induction v as [|p v IH]; intros H; [reflexivity|].
+  destruct p; cbn [merge]; cbn [nf] in H.
+  - destruct v as [|q r]; [reflexivity|].
+    destruct q; try discriminate; rewrite (IH H); reflexivity.
+  - rewrite (IH H); reflexivity.
+  - rewrite (IH H); reflexivity.
+  - rewrite (IH H); reflexivity.
+Qed.
+
+Lemma merge_idem v : merge (merge v) = merge v.
+Proof. apply merge_nf, nf_merge. Qed.
+
+Lemma merge_app_r a b : merge (a ++ merge b) = merge (a ++ b).
+Proof.
+  induction a as [|p a IH]; [apply merge_idem|].
+  destruct p; cbn [app merge]; rewrite IH; reflexivity.
+Qed.
+
+Lemma merge_app_l a b : merge (merge a ++ b) = merge (a ++ b).
+Proof.
+  induction a as [|p a IH]; [reflexivity|].
+  destruct p; cbn [app merge]; try (rewrite IH; reflexivity).
+  rewrite <- IH.
+  destruct (merge a) as [|q r] eqn:E; [reflexivity|].
+  destruct q; try reflexivity.
+  cbn [app merge].
+  destruct (merge (r ++ b)) as [|q' r'] eqn:E2; [reflexivity|].
+  destruct q'; try reflexivity.
+  rewrite app_assoc. reflexivity.
+Qed.
+
+Lemma merge_app a b : merge (merge a ++ merge b) = merge (a ++ b).
+Proof. rewrite merge_app_l, merge_app_r. reflexivity. Qed.
+
+Lemma placeholders_app a b : placeholders (a ++ b) = placeholders a ++ placeholders b.
+Proof. unfold placeholders. apply flat_map_app. Qed.
+
+Lemma placeholders_cons p v : placeholders (p :: v) = placeholders [p] ++ placeholders v.
+Proof. unfold placeholders. simpl. rewrite app_nil_r. reflexivity. Qed.
+
+Lemma placeholders_merge v : placeholders (merge v) = placeholders v.
+Proof.
+  induction v as [|p v IH]; [reflexivity|].
+  destruct p; cbn [merge];
+    try (rewrite (placeholders_cons _ (merge v)), (placeholders_cons _ v), IH; reflexivity).
+  rewrite (placeholders_cons _ v), <- IH.
+  destruct (merge v) as [|q r] eqn:E; [reflexivity|].
+  destruct q; reflexivity.
+Qed.
+
+Lemma ph_names_eq v : ph_names v = placeholders v.
+Proof. reflexivity. Qed.
+
+(* ---------------------------------------------------------------------------------------- *)
+(* replace_placeholders is the substitution over the cartesian product *)
+Lemma subst_noph v ch : placeholders v = [] -> subst v ch = v.
+Proof.
+  induction v as [|p v IH]; intros H; [reflexivity|].
+  destruct p; try discriminate; cbn [subst]; rewrite IH; auto.
+Qed.
+
+Lemma cross_merge pre v R sufs (cart : list (list sstring)) :
+  map merge sufs = map (fun ch => merge (subst v ch)) cart ->
+  map merge (cross pre R sufs) =
+  flat_map (fun r => map (fun ch => merge (pre ++ r ++ subst v ch)) cart) R.
+Proof.
+  intros Hs. unfold cross. induction R as [|r R IH]; [reflexivity|].
+  cbn [flat_map]. rewrite map_app, IH. f_equal.
+  rewrite map_map.
+  transitivity (map (fun x => merge ((pre ++ r) ++ x)) (map merge sufs)).
+  - rewrite map_map. apply map_ext. intros sf. unfold sadd.
+    rewrite merge_idem, merge_app_l, merge_app_r. reflexivity.
+  - rewrite Hs, map_map. apply map_ext. intros ch.
+    rewrite merge_app_r, <- app_assoc. reflexivity.
+Qed.
+
+Lemma map_cart_cons {A B} (g : list A -> B) (R : list A) (cart : list (list A)) :
+  map g (flat_map (fun x => map (cons x) cart) R) =
+  flat_map (fun x => map (fun ch => g (x :: ch)) cart) R.
+Proof.
+  induction R as [|x R IH]; [reflexivity|].
+  cbn [flat_map]. rewrite map_app, IH, map_map. reflexivity.
+Qed.
+
+Lemma rp_merge cb (f : str -> list sstring) v : forall pre,
+  (forall n, In n (placeholders v) -> cb n = Ok (f n)) ->
+  exists l, rp cb pre v = Ok l /\
+    map merge l = map (fun ch => merge (pre ++ subst v ch)) (cartesian (map f (placeholders v))).
+Proof.
+  induction v as [|p v IH]; intros pre H.
+  - exists [pre]. split; [reflexivity|]. simpl. rewrite app_nil_r. reflexivity.
+  - assert (Hrest : forall n, In n (placeholders v) -> cb n = Ok (f n)).
+    { intros n Hn. apply H. rewrite placeholders_cons. apply in_or_app. right. exact Hn. }
+    destruct p.
+    + destruct (IH (pre ++ [PStr s]) Hrest) as [l [E1 E2]]. exists l. split; [exact E1|].
+      rewrite E2. apply map_ext. intros ch. rewrite <- app_assoc. reflexivity.
+    + destruct (IH (pre ++ [PMulti]) Hrest) as [l [E1 E2]]. exists l. split; [exact E1|].
+      rewrite E2. apply map_ext. intros ch. rewrite <- app_assoc. reflexivity.
+    + destruct (IH (pre ++ [PSingle]) Hrest) as [l [E1 E2]]. exists l. split; [exact E1|].
+      rewrite E2. apply map_ext. intros ch. rewrite <- app_assoc. reflexivity.
+    + assert (Hn : cb name = Ok (f name)) by (apply H; left; reflexivity).
+      cbn [rp]. rewrite Hn. cbn [obind].
+      change (placeholders (PPh name :: v)) with (name :: placeholders v).
+      cbn [map cartesian].
+      destruct (f name) as [|r0 R] eqn:Ef.
+      * exists []. split; reflexivity.
+      * destruct (IH [] Hrest) as [sufs [E1 E2]]. rewrite E1. cbn [obind].
+        eexists. split; [reflexivity|].
+        rewrite (cross_merge pre v (r0 :: R) sufs _ E2).
+        rewrite map_cart_cons. reflexivity.
+Qed.
+
+(* results are merged, provided the value itself is *)
+Lemma cross_merged pre R sufs : map merge (cross pre R sufs) = cross pre R sufs.
+Proof.
+  unfold cross. induction R as [|r R IHR]; [reflexivity|].
+  cbn [flat_map]. rewrite map_app, IHR. f_equal.
+  rewrite map_map. apply map_ext. intros sf. unfold sadd. apply merge_idem.
+Qed.
+
+Lemma rp_results_merged cb v : forall pre l,
+  rp cb pre v = Ok l -> merge (pre ++ v) = pre ++ v -> map merge l = l.
+Proof.
+  induction v as [|p v IH]; intros pre l H Hm.
+  - injection H as <-. rewrite app_nil_r in Hm. simpl. rewrite Hm. reflexivity.
+  - destruct p; try (apply (IH (pre ++ [_]) l H); rewrite <- app_assoc; exact Hm).
+    cbn [rp] in H. destruct (cb name) as [reps| |]; try discriminate. cbn [obind] in H.
+    destruct reps as [|r0 R]; [injection H as <-; reflexivity|].
+    destruct (rp cb [] v) as [sufs| |]; try discriminate. cbn [obind] in H. injection H as <-.
+    exact (cross_merged pre (r0 :: R) sufs).
+Qed.
+
+Theorem cross_product cb (f : str -> list sstring) v :
+  merge v = v ->
+  (forall n, In n (placeholders v) -> cb n = Ok (f n)) ->
+  replace_placeholders cb v =
+    Ok (map (fun ch => merge (subst v ch)) (cartesian (map f (ph_names v)))).
+Proof.
+  intros Hm H. unfold replace_placeholders.
+  destruct (rp_merge cb f v [] H) as [l [E1 E2]].
+  rewrite E1. f_equal. rewrite <- (rp_results_merged cb v [] l E1 Hm). exact E2.
+Qed.
+
+(* an error of replace_placeholders is an error of the callback on one of the value's placeholders *)
+Lemma rp_error cb v : forall pre,
+  (forall l, rp cb pre v <> Ok l) ->
+  exists n, In n (placeholders v) /\ cb n = rp cb pre v.
+Proof.
+  induction v as [|p v IH]; intros pre H.
+  - exfalso. apply (H [pre]). reflexivity.
+  - destruct p; try (destruct (IH (pre ++ [_]) H) as [n [Hi He]]; exists n; split;
+                     [rewrite placeholders_cons; apply in_or_app; right; exact Hi | exact He]).
+    cbn [rp] in H |- *. destruct (cb name) as [reps| |] eqn:Ec.
+    + cbn [obind] in H |- *. destruct reps as [|r0 R]; [exfalso; apply (H []); reflexivity|].
+      destruct (rp cb [] v) as [sufs| |] eqn:Er.
+      * exfalso. eapply H. reflexivity.
+      * destruct (IH []) as [n [Hi He]]; [intros l; rewrite Er; discriminate|].
+        exists n. split; [right; exact Hi | rewrite He, Er; reflexivity].
+      * destruct (IH []) as [n [Hi He]]; [intros l; rewrite Er; discriminate|].
+        exists n. split; [right; exact Hi | rewrite He, Er; reflexivity].
+    + exists name. split; [left; reflexivity | exact Ec].
+    + exists name. split; [left; reflexivity | exact Ec].
+Qed.
+
+(* ---------------------------------------------------------------------------------------- *)
+(* which placeholders are left after one transformation *)
+Lemma in_cross pre R sufs x : In x (cross pre R sufs) ->
+  exists r sf, In r R /\ In sf sufs /\ x = sadd (sadd pre r) sf.
+Proof.
+  unfold cross. intros Hx. apply in_flat_map in Hx. destruct Hx as [r [Hr Hx]].
+  apply in_map_iff in Hx. destruct Hx as [sf [<- Hsf]]. exists r, sf. auto.
+Qed.
+
+Lemma rp_placeholders cb (h : str -> bool) v : forall pre l,
+  (forall n reps, In n (placeholders v) -> cb n = Ok reps ->
+     if h n then Forall (fun r => placeholders r = []) reps else reps = [[PPh n]]) ->
+  rp cb pre v = Ok l ->
+  Forall (fun r => placeholders r = placeholders pre ++ filter (fun n => negb (h n)) (placeholders v)) l.
+Proof.
+  induction v as [|p v IH]; intros pre l Hcb H.
+  - injection H as <-. constructor; [|constructor]. simpl. rewrite app_nil_r. reflexivity.
+  - assert (Hrest : forall n reps, In n (placeholders v) -> cb n = Ok reps ->
+                 if h n then Forall (fun r => placeholders r = []) reps else reps = [[PPh n]]).
+    { intros n reps Hn. apply Hcb. rewrite placeholders_cons. apply in_or_app. right. exact Hn. }
+    destruct p;
+      try (specialize (IH (pre ++ [_]) l Hrest H); rewrite placeholders_app in IH;
+           simpl in IH; rewrite app_nil_r in IH; exact IH).
+    cbn [rp] in H. destruct (cb name) as [reps| |] eqn:Ec; try discriminate. cbn [obind] in H.
+    specialize (Hcb name reps (or_introl eq_refl) Ec).
+    destruct reps as [|r0 R]; [injection H as <-; constructor|].
+    destruct (rp cb [] v) as [sufs| |] eqn:Er; try discriminate. cbn [obind] in H. injection H as <-.
+    specialize (IH [] sufs Hrest Er). rewrite Forall_forall in IH.
+    apply Forall_forall. intros x Hx.
+    apply (in_cross pre (r0 :: R) sufs) in Hx. destruct Hx as [r [sf [Hr [Hsf ->]]]].
+    unfold sadd. rewrite placeholders_merge, placeholders_app, placeholders_merge, placeholders_app.
+    rewrite (IH sf Hsf). cbn [placeholders flat_map app]. rewrite <- app_assoc. f_equal.
+    change (flat_map (fun p => match p with PPh n => [n] | _ => [] end) v) with (placeholders v).
+    cbn [filter]. destruct (h name) eqn:Eh; cbn [negb].
+    + rewrite Forall_forall in Hcb. rewrite (Hcb r Hr). reflexivity.
+    + rewrite Hcb in Hr. destruct Hr as [<-|[]]. reflexivity.
+Qed.
+
+Lemma ph_of_iparse_len n : forall s, (length s <= n)%nat -> ph_of (iparse s) = [].
+Proof.
+  induction n as [|n IH]; intros s Hl.
+  - destruct s; [reflexivity | simpl in Hl; lia].
+  - destruct s as [|c s']; [reflexivity|]. simpl in Hl. cbn [iparse].
+    destruct (N.eqb c c_bs).
+    + destruct s' as [|d s'']; [reflexivity|]. simpl in Hl.
+      destruct (is_special d || N.eqb d c_bs); simpl; apply IH; lia.
+    + destruct (is_special c).
+      * unfold special_item. destruct (N.eqb c c_star); simpl; apply IH; lia.
+      * simpl. apply IH. lia.
+Qed.
+Lemma ph_of_iparse s : ph_of (iparse s) = [].
+Proof. apply (ph_of_iparse_len (length s)). lia. Qed.
+
+Lemma placeholders_flush acc : placeholders (flush [] acc) = [].
+Proof. destruct acc; reflexivity. Qed.
+Lemma placeholders_canon_go l : forall acc, placeholders (canon_go l acc) = ph_of l.
+Proof.
+  induction l as [|i l IH]; intros acc; [apply placeholders_flush|].
+  destruct i; cbn [canon_go].
+  - apply IH.
+  - rewrite placeholders_app, placeholders_flush, placeholders_cons, IH. reflexivity.
+  - rewrite placeholders_app, placeholders_flush, placeholders_cons, IH. reflexivity.
+  - rewrite placeholders_app, placeholders_flush, placeholders_cons, IH. reflexivity.
+Qed.
+Lemma placeholders_parse s : placeholders (parse true s) = [].
+Proof. rewrite parse_canon. unfold canon. rewrite placeholders_canon_go. apply ph_of_iparse. Qed.
+
+Lemma vl_lookup_noph vs n reps :
+  vl_lookup vs n = Ok reps -> Forall (fun r => placeholders r = []) reps.
+Proof.
+  assert (G : forall L, Forall (fun r => placeholders r = [])
+                (flat_map (fun x => match x with VText t => [parse true t] | VBad => [] end) L)).
+  { intros L. apply Forall_forall. intros r Hr. apply in_flat_map in Hr. destruct Hr as [x [_ Hx]].
+    destruct x; [|destruct Hx]. destruct Hx as [<-|[]]. apply placeholders_parse. }
+  unfold vl_lookup. destruct (assoc n vs) as [tab|]; [|discriminate].
+  set (l := match tab with TScalar x => [x] | TList l => l end). clearbody l.
+  destruct l as [|x0 l0]; [discriminate|].
+  destruct (forallb _ (x0 :: l0)); [|discriminate]. intros H. injection H as <-.
+  apply (G (x0 :: l0)).
+Qed.
+
+Definition base_kind (t : titem) : Prop := t_kind t = KValueList \/ t_kind t = KWildcard.
+
+Lemma base_cb_shape vs t rx n reps : base_kind t ->
+  base_cb vs t rx n = Ok reps ->
+  if handled t n then Forall (fun r => placeholders r = []) reps else reps = [[PPh n]].
+Proof.
+  intros Hk. unfold base_cb. destruct (handled t n).
+  - destruct Hk as [Hk|Hk]; rewrite Hk.
+    + apply vl_lookup_noph.
+    + intros H. injection H as <-. constructor; [|constructor]. destruct rx; reflexivity.
+  - intros H. injection H as <-. reflexivity.
+Qed.
+
+Lemma handled_cond t n : item_ok t = true ->
+  handled t n = (match t_inc t with None => true | Some l => mem_str n l end
+                 && match t_exc t with None => true | Some l => negb (mem_str n l) end).
+Proof.
+  unfold item_ok, handled. destruct (t_inc t), (t_exc t); intros H; try discriminate;
+    rewrite ?orb_false_r, ?andb_true_r; reflexivity.
+Qed.
+
+Lemma filter_all {A} (p : A -> bool) l : (forall x, In x l -> p x = true) -> filter p l = l.
+Proof.
+  induction l as [|x l IH]; intros H; [reflexivity|]. simpl.
+  rewrite (H x (or_introl eq_refl)). f_equal. apply IH. intros y Hy. apply H. right. exact Hy.
+Qed.
+
+Lemma contains_ph_false t v : item_ok t = true -> contains_ph (t_inc t) (t_exc t) v = false ->
+  filter (fun n => negb (handled t n)) (placeholders v) = placeholders v.
+Proof.
+  intros Hok H. apply filter_all. intros n Hn.
+  unfold contains_ph in H. rewrite (handled_cond t n Hok).
+  destruct (_ && _) eqn:E; [|reflexivity].
+  exfalso. assert (X : existsb (fun n => match t_inc t with None => true | Some l => mem_str n l end
+                    && match t_exc t with None => true | Some l => negb (mem_str n l) end)
+          (placeholders v) = true) by (apply existsb_exists; exists n; split; assumption).
+  rewrite X in H. discriminate.
+Qed.
+
+(* value of a detection item -> its parts, when it has parts *)
+Definition vparts (x : value) : sstring := match x with VS v | VR v => v | VQ _ _ => [] end.
+
+Lemma base_replace_ph vs t rx v l : base_kind t ->
+  replace_placeholders (base_cb vs t rx) v = Ok l ->
+  Forall (fun w => placeholders w = filter (fun n => negb (handled t n)) (placeholders v)) l.
+Proof.
+  intros Hk Er. unfold replace_placeholders in Er.
+  exact (rp_placeholders (base_cb vs t rx) (handled t) v [] l
+           (fun n reps _ E => base_cb_shape vs t rx n reps Hk E) Er).
+Qed.
+
+Lemma apply_base_S vs t v rs : item_ok t = true -> base_kind t ->
+  (if contains_ph (t_inc t) (t_exc t) v
+   then obind (replace_placeholders (base_cb vs t false) v) (fun l => Ok (map VS l))
+   else Ok [VS v]) = Ok rs ->
+  Forall (fun r => placeholders (vparts r) = filter (fun n => negb (handled t n)) (placeholders v)) rs.
+Proof.
+  intros Hok Hk H. destruct (contains_ph (t_inc t) (t_exc t) v) eqn:Ec.
+  - destruct (replace_placeholders (base_cb vs t false) v) as [l| |] eqn:Er; try discriminate.
+    cbn [obind] in H. injection H as <-.
+    pose proof (base_replace_ph vs t false v l Hk Er) as F. rewrite Forall_forall in F.
+    apply Forall_forall. intros r Hr. apply in_map_iff in Hr. destruct Hr as [w [<- Hw]].
+    exact (F w Hw).
+  - injection H as <-. constructor; [|constructor]. cbn [vparts].
+    rewrite (contains_ph_false t v Hok Ec). reflexivity.
+Qed.
+
+Lemma apply_base_R vs t v rs : item_ok t = true -> base_kind t ->
+  (if contains_ph (t_inc t) (t_exc t) v
+   then obind (replace_placeholders (base_cb vs t true) v)
+          (fun l => if forallb compile_ok l then Ok (map VR l) else SigmaErr E_Regex)
+   else Ok [VR v]) = Ok rs ->
+  Forall (fun r => placeholders (vparts r) = filter (fun n => negb (handled t n)) (placeholders v)) rs.
+Proof.
+  intros Hok Hk H. destruct (contains_ph (t_inc t) (t_exc t) v) eqn:Ec.
+  - destruct (replace_placeholders (base_cb vs t true) v) as [l| |] eqn:Er; try discriminate.
+    cbn [obind] in H. destruct (forallb compile_ok l); [|discriminate]. injection H as <-.
+    pose proof (base_replace_ph vs t true v l Hk Er) as F. rewrite Forall_forall in F.
+    apply Forall_forall. intros r Hr. apply in_map_iff in Hr. destruct Hr as [w [<- Hw]].
+    exact (F w Hw).
+  - injection H as <-. constructor; [|constructor]. cbn [vparts].
+    rewrite (contains_ph_false t v Hok Ec). reflexivity.
+Qed.
+
+Theorem handled_gone vs t x rs :
+  item_ok t = true -> base_kind t ->
+  apply_value vs t x = Ok rs ->
+  Forall (fun r => placeholders (vparts r) =
+                   filter (fun n => negb (handled t n)) (placeholders (vparts x))) rs.
+Proof.
+  intros Hok Hk H. unfold apply_value in H.
+  destruct Hk as [Ek|Ek]; rewrite Ek in H.
+  - destruct x as [v|v|e i].
+    + exact (apply_base_S vs t v rs Hok (or_introl Ek) H).
+    + exact (apply_base_R vs t v rs Hok (or_introl Ek) H).
+    + injection H as <-. constructor; [reflexivity|constructor].
+  - destruct x as [v|v|e i].
+    + exact (apply_base_S vs t v rs Hok (or_intror Ek) H).
+    + exact (apply_base_R vs t v rs Hok (or_intror Ek) H).
+    + injection H as <-. constructor; [reflexivity|constructor].
+Qed.
